@@ -79,6 +79,8 @@ fn build(bits: &[bool], ctor: u32) -> BitVec<u8> {
 }
 
 fn run_one(log: &mut Log, tag: &str, bits: &[bool], k: usize, ctor: u32, via: u32) {
+    // which query kinds stay with the original when a copy exists (one run in four: none)
+    let mask: u32 = if (bits.len() + k) % 4 == 0 { 0 } else { ((bits.len() * 7 + k * 3 + ctor as usize) % 31) as u32 };
     let n = bits.len();
     if !log.begin(tag, json!({"n": n, "k": k, "ctor": ctor, "via": via, "bits": bits_json(bits)})) {
         return;
@@ -163,57 +165,80 @@ fn run_one(log: &mut Log, tag: &str, bits: &[bool], k: usize, ctor: u32, via: u3
         Some(r) => r,
         None => return,
     };
-    // the queries go to the object itself, to a clone, or to a serde round trip through JSON (a
-    // self-describing format) -- all three must answer alike
-    let rs = match via {
+    // the queries go to the object itself or are split between it and a copy made mid-history: a clone,
+    // a serde round trip through JSON (a self-describing format), or clone_from into an object that was
+    // built for another vector and another k and already used -- every object must answer alike
+    let orig = rs;
+    let mut copy: Option<RankSelect> = None;
+    match via {
         1 => {
-            let mut c: Option<RankSelect> = None;
             log.call("clone", json!({}), || {
-                c = Some(rs.clone());
+                copy = Some(orig.clone());
                 json!({})
             });
             log.oblige("rs_clone_queried");
-            match c {
-                Some(c) => c,
-                None => return,
-            }
         }
         2 => {
-            let mut c: Option<RankSelect> = None;
             log.call("serde", json!({}), || {
-                let text = serde_json::to_string(&rs).expect("serialize");
-                c = Some(serde_json::from_str(&text).expect("deserialize"));
+                let text = serde_json::to_string(&orig).expect("serialize");
+                copy = Some(serde_json::from_str(&text).expect("deserialize"));
                 json!({"len": text.len()})
             });
             log.oblige("rs_serde_roundtrip_queried");
             if some1 || some0 {
                 log.oblige("rs_serde_roundtrip_with_equal_rank_run");
             }
-            match c {
-                Some(c) => c,
-                None => return,
-            }
         }
-        _ => rs,
+        3 => {
+            log.call("clone_from", json!({}), || {
+                let other: Vec<bool> = (0..(n * 2 + 13)).map(|i| i % 3 == 0).collect();
+                let mut used = RankSelect::new(build(&other, 0), k + 1);
+                let _ = used.select_1(2);
+                let _ = used.rank_0(5);
+                used.clone_from(&orig);
+                copy = Some(used);
+                json!({})
+            });
+            log.oblige("rs_clone_from_into_used_object");
+        }
+        _ => {}
+    }
+    if via != 0 && copy.is_none() {
+        return;
+    }
+    // bit i of `mask` set: query kind i is answered by the original although a copy exists
+    let pick = |kind: u32| -> &RankSelect {
+        match &copy {
+            Some(c) if (mask >> kind) & 1 == 0 => c,
+            _ => &orig,
+        }
     };
+    if via != 0 && mask & 31 != 0 && mask & 31 != 31 {
+        log.oblige("rs_original_and_copy_both_continue");
+    }
     let n64 = n as u64;
     log.call("get", json!({}), || {
+        let rs = pick(0);
         let v: Vec<u8> = (0..n64).map(|i| rs.get(i) as u8).collect();
         json!({ "v": v })
     });
     log.call("rank_1", json!({}), || {
+        let rs = pick(1);
         let v: Vec<i64> = (0..=n64 + 1).map(|i| opt(rs.rank_1(i))).collect();
         json!({ "v": v })
     });
     log.call("rank_0", json!({}), || {
+        let rs = pick(2);
         let v: Vec<i64> = (0..=n64 + 1).map(|i| opt(rs.rank_0(i))).collect();
         json!({ "v": v })
     });
     log.call("select_1", json!({}), || {
+        let rs = pick(3);
         let v: Vec<i64> = (0..=n64 + 1).map(|j| opt(rs.select_1(j))).collect();
         json!({ "v": v })
     });
     log.call("select_0", json!({}), || {
+        let rs = pick(4);
         let v: Vec<i64> = (0..=n64 + 1).map(|j| opt(rs.select_0(j))).collect();
         json!({ "v": v })
     });
@@ -296,7 +321,7 @@ pub fn drive(log: &mut Log) {
                 let mut rng = Rng::new(seed, 17, case);
                 let which = if thorough { rep } else { (n as u64 + rep * 3 + seed) % NFILL };
                 let bits = fill(&mut rng, n, 32 * k, which);
-                run_one(log, "sm", &bits, k, (case % 5) as u32, (case / 5 % 3) as u32);
+                run_one(log, "sm", &bits, k, (case % 5) as u32, (case / 5 % 4) as u32);
             }
         }
     }
@@ -318,7 +343,7 @@ pub fn drive(log: &mut Log) {
                     let mut rng = Rng::new(seed, 18, case);
                     let which = if thorough { rep } else { ((d + 9) as u64 + rep * 3 + seed + mult as u64) % NFILL };
                     let bits = fill(&mut rng, n, 32 * k, which);
-                    run_one(log, "bd", &bits, k, (case % 5) as u32, (case / 5 % 3) as u32);
+                    run_one(log, "bd", &bits, k, (case % 5) as u32, (case / 5 % 4) as u32);
                 }
             }
         }
@@ -335,7 +360,7 @@ pub fn drive(log: &mut Log) {
             if n < 32 * k {
                 log.oblige("k_larger_than_vector");
             }
-            run_one(log, "lg", &bits, k, (case % 5) as u32, (case / 5 % 3) as u32);
+            run_one(log, "lg", &bits, k, (case % 5) as u32, (case / 5 % 4) as u32);
         }
     }
 }
